@@ -201,7 +201,8 @@ def real_stream(chk, rng, n, stats):
                 stats["real_stream_outward_link_status_1"] = stats.get("real_stream_outward_link_status_1", 0) + 1
             if tpl == "moved/%Name()":
                 stats["real_stream_outward_link_destination_inside"] = stats.get("real_stream_outward_link_destination_inside", 0) + 1
-            if "which is outside of the input directory" in (res.stderr or "") + (res.stdout or ""):
+            if " lives in " in (res.stderr or "") + (res.stdout or "") and \
+                    "which is outside of the input directory" in (res.stderr or "") + (res.stdout or ""):       # F32's message (F34's says "lies in")
                 stats["real_stream_source_outside_refused"] = stats.get("real_stream_source_outside_refused", 0) + 1
         for p in set(init) | set(fin):
             if init.get(p) != fin.get(p) and not any(d in ("", ".") or inside(p, d) for d in ins):
